@@ -154,14 +154,96 @@ def gradients_are_inputs(ctx, rep, rule: str) -> None:
     rep.floor(rule, "in-place writes in the preconditioner-list and matrix modules", n, 8)
 
 
+def _writes_into_tensor_params(node: ast.AST, dotted_of) -> tuple[bool, list[tuple[ast.AST, str, str, list[str]]]]:
+    """(has Tensor parameters, [(site, operation, destination text, parameters the destination may alias)]) for one function.
+    Local may-alias analysis: a name may alias a parameter if some binding of it is the parameter, an alias, a view of an alias
+    (view methods / view attributes / subscripts / torch view functions), the result of an in-place method on an alias, or a
+    possibly-copying conversion of one (`.to()`, `.contiguous()`, `.reshape()` return the receiver itself for some inputs)."""
+    from .. import tables as T
+
+    a = node.args
+    tparams = {x.arg for x in a.posonlyargs + a.args + a.kwonlyargs if x.annotation is not None and "Tensor" in ast.unparse(x.annotation)}
+    if not tparams:
+        return False, []
+    alias: dict[str, set[str]] = {p_: {p_} for p_ in tparams}
+
+    def src(e) -> set[str]:
+        if isinstance(e, ast.Name):
+            return set(alias.get(e.id, ()))
+        if isinstance(e, ast.Attribute):
+            return src(e.value) if e.attr in T.VIEW_ATTRS else set()
+        if isinstance(e, ast.Subscript):
+            return src(e.value)
+        if isinstance(e, ast.IfExp):
+            return src(e.body) | src(e.orelse)
+        if isinstance(e, ast.NamedExpr):
+            return src(e.value)
+        if isinstance(e, (ast.Tuple, ast.List)):
+            return set().union(*(src(x) for x in e.elts)) if e.elts else set()
+        if isinstance(e, ast.Call):
+            f = e.func
+            if isinstance(f, ast.Attribute):
+                d = dotted_of(f)
+                if d is not None and d.startswith("torch."):
+                    if d in T.VIEW_FUNCS or d in T.MAYBE_COPY_FUNCS or d.endswith("_"):
+                        return src(e.args[0]) if e.args else set()
+                    return set()
+                if f.attr in T.VIEW_METHODS or f.attr in T.MAYBE_COPY_METHODS or (f.attr.endswith("_") and not f.attr.startswith("__")):
+                    return src(f.value)
+            return set()
+        return set()
+
+    changed = True
+    while changed:
+        changed = False
+        for st in A.walk_no_nested(node):
+            pairs = []
+            if isinstance(st, ast.Assign):
+                pairs = [(t, st.value) for t in st.targets]
+            elif isinstance(st, ast.AnnAssign) and st.value is not None:
+                pairs = [(st.target, st.value)]
+            elif isinstance(st, ast.NamedExpr):
+                pairs = [(st.target, st.value)]
+            elif isinstance(st, (ast.For, ast.comprehension)):
+                pairs = [(st.target, st.iter)]
+            for tg, v in pairs:
+                if isinstance(tg, (ast.Attribute, ast.Subscript)):
+                    continue
+                names = [x.id for x in ast.walk(tg) if isinstance(x, ast.Name)]
+                s_ = src(v)
+                for nm in names:
+                    if not s_ <= alias.get(nm, set()):
+                        alias.setdefault(nm, set()).update(s_)
+                        changed = True
+    sites = []
+    for n in A.walk_no_nested(node):
+        dst, op = None, None
+        if isinstance(n, ast.Call) and isinstance(n.func, ast.Attribute):
+            f = n.func
+            d = dotted_of(f)
+            if d is not None and d.startswith("torch."):
+                if d.endswith("_") and n.args:
+                    dst, op = n.args[0], d
+            elif f.attr.endswith("_") and not f.attr.startswith("__") and f.attr not in T.VIEW_METHODS:
+                dst, op = f.value, f.attr
+            out = A.keyword(n, "out")
+            if out is not None:
+                sites.append((n, "out=", ast.unparse(out), sorted(src(out))))
+        elif isinstance(n, ast.AugAssign):
+            dst, op = n.target, type(n.op).__name__ + "="
+            if isinstance(dst, ast.Name) and not alias.get(dst.id):
+                dst = None
+        elif isinstance(n, ast.Assign) and any(isinstance(t, ast.Subscript) for t in n.targets):
+            dst, op = next(t for t in n.targets if isinstance(t, ast.Subscript)).value, "[...]="
+        if dst is not None:
+            sites.append((n, op, ast.unparse(dst), sorted(src(dst))))
+    return True, sites
+
+
 def tensor_arguments_are_inputs(ctx, rep, rule: str, module: str = "matrix_functions", only: tuple[str, ...] | None = None) -> None:
     """The matrix routines are functions of their tensor arguments: no in-place operation (`x.add_()`, `x += …`, `out=x`,
     `x[...] = …`) inside a function of the module may land in storage that may belong to one of that function's Tensor
-    parameters.  Local may-alias analysis: a name may alias a parameter if some assignment to it is the parameter, an alias, a
-    view of an alias, or a possibly-copying conversion of one (`.to()`, `.contiguous()`, `.reshape()` return the receiver itself
-    for some inputs).  `A_ridge = A.add_(eps * I)` where `A.add(…)` was meant shifts the caller's matrix on every call."""
-    from .. import tables as T
-
+    parameters.  `A_ridge = A.add_(eps * I)` where `A.add(…)` was meant shifts the caller's matrix on every call."""
     repo = ctx.repo
     m = repo.modules.get(module)
     if m is None:
@@ -170,90 +252,20 @@ def tensor_arguments_are_inputs(ctx, rep, rule: str, module: str = "matrix_funct
     for fi in sorted((f for f in repo.funcs.values() if f.module is m and f.parent is None), key=lambda f: f.qual):
         if only is not None and fi.name not in only:
             continue
-        a = fi.node.args
-        tparams = {x.arg for x in a.posonlyargs + a.args + a.kwonlyargs if x.annotation is not None and "Tensor" in ast.unparse(x.annotation)}
-        if not tparams:
+        has, sites = _writes_into_tensor_params(fi.node, lambda f, fi=fi: repo.dotted_of(fi.module, f))
+        if not has:
             continue
         n_funcs += 1
-        alias: dict[str, set[str]] = {p_: {p_} for p_ in tparams}
-
-        def src(e) -> set[str]:
-            """parameters whose storage the value of e may share"""
-            if isinstance(e, ast.Name):
-                return set(alias.get(e.id, ()))
-            if isinstance(e, ast.Attribute):
-                return src(e.value) if e.attr in T.VIEW_ATTRS else set()
-            if isinstance(e, ast.Subscript):
-                return src(e.value)
-            if isinstance(e, ast.IfExp):
-                return src(e.body) | src(e.orelse)
-            if isinstance(e, ast.NamedExpr):
-                return src(e.value)
-            if isinstance(e, (ast.Tuple, ast.List)):
-                return set().union(*(src(x) for x in e.elts)) if e.elts else set()
-            if isinstance(e, ast.Call):
-                f = e.func
-                if isinstance(f, ast.Attribute):
-                    d = repo.dotted_of(fi.module, f)
-                    if d is not None and d.startswith("torch."):
-                        if d in T.VIEW_FUNCS or d in T.MAYBE_COPY_FUNCS or d.endswith("_"):
-                            return src(e.args[0]) if e.args else set()
-                        return set()
-                    if f.attr in T.VIEW_METHODS or f.attr in T.MAYBE_COPY_METHODS or (f.attr.endswith("_") and not f.attr.startswith("__")):
-                        return src(f.value)
-                return set()
-            return set()
-
-        changed = True
-        while changed:
-            changed = False
-            for st in A.walk_no_nested(fi.node):
-                pairs = []
-                if isinstance(st, ast.Assign):
-                    pairs = [(t, st.value) for t in st.targets]
-                elif isinstance(st, ast.AnnAssign) and st.value is not None:
-                    pairs = [(st.target, st.value)]
-                elif isinstance(st, ast.NamedExpr):
-                    pairs = [(st.target, st.value)]
-                elif isinstance(st, (ast.For, ast.comprehension)):
-                    pairs = [(st.target, st.iter)]
-                for tg, v in pairs:
-                    names = [x.id for x in ast.walk(tg) if isinstance(x, ast.Name)] if not isinstance(tg, ast.Name) else [tg.id]
-                    if isinstance(tg, (ast.Attribute, ast.Subscript)):
-                        continue
-                    s_ = src(v)
-                    for nm in names:
-                        if not s_ <= alias.get(nm, set()):
-                            alias.setdefault(nm, set()).update(s_)
-                            changed = True
-        for n in A.walk_no_nested(fi.node):
-            dst, op = None, None
-            if isinstance(n, ast.Call) and isinstance(n.func, ast.Attribute):
-                f = n.func
-                d = repo.dotted_of(fi.module, f)
-                if d is not None and d.startswith("torch."):
-                    if d.endswith("_") and n.args:
-                        dst, op = n.args[0], d
-                elif f.attr.endswith("_") and not f.attr.startswith("__") and f.attr not in T.VIEW_METHODS:
-                    dst, op = f.value, f.attr
-                out = A.keyword(n, "out")
-                if out is not None:
-                    n_sites += 1
-                    hit = sorted(src(out))
-                    rep.ob(rule, f"tensor-arguments-are-inputs:{fi.name}:out=", not hit, fi.loc(n), f"`out={ast.unparse(out)}` in {fi.name}" + (f" may write the caller's `{hit[0]}`" if hit else " writes a local tensor"), sample=False)
-            elif isinstance(n, ast.AugAssign):
-                dst, op = n.target, type(n.op).__name__ + "="
-                if isinstance(dst, ast.Name) and not (alias.get(dst.id)):
-                    dst = None
-            elif isinstance(n, ast.Assign) and any(isinstance(t, ast.Subscript) for t in n.targets):
-                dst, op = next(t for t in n.targets if isinstance(t, ast.Subscript)).value, "[...]="
-            if dst is None:
-                continue
+        for n, op, dtxt, hit in sites:
             n_sites += 1
-            hit = sorted(src(dst))
-            rep.ob(rule, f"tensor-arguments-are-inputs:{fi.name}:{op.replace('torch.', '')}", not hit, fi.loc(n), f"in-place `{op}` on `{ast.unparse(dst)[:60]}` in {fi.name}" + (f" may write storage of the caller's argument `{hit[0]}` (the routine must work on a copy: the caller keeps using that tensor — the optimizer's stored factor / eigenbasis, or the same matrix in a later call)" if hit else " lands in a tensor created inside the routine"), sample=(n_sites % 4 == 0))
+            rep.ob(rule, f"tensor-arguments-are-inputs:{fi.name}:{op.replace('torch.', '')}", not hit, fi.loc(n), f"in-place `{op}` on `{dtxt[:60]}` in {fi.name}" + (f" may write storage of the caller's argument `{hit[0]}` (the routine must work on a copy: the caller keeps using that tensor — the optimizer's stored factor / eigenbasis, or the same matrix in a later call)" if hit else " lands in a tensor created inside the routine"), sample=(n_sites % 4 == 0))
     rep.floor(rule, f"functions of {module} with Tensor parameters", n_funcs, 3 if only else 8)
-    rep.floor(rule, f"in-place sites examined in {module}", n_sites, 1 if only else 3)
+    # the number of in-place sites may legitimately drop to zero (every in-place twin rewritten out of place); what must not
+    # happen is that the rule stops seeing them: positive control on a synthetic function, analysed by the same code path
+    ctl = ast.parse("def f(A: Tensor, n: int):\n    B = A.to(dtype=A.dtype)\n    C = B.T\n    C.add_(1)\n    D = A.mul(2)\n    D.add_(1)\n").body[0]
+    _, csites = _writes_into_tensor_params(ctl, lambda f: None)
+    ok_ctl = {d_: h for _, _, d_, h in csites} == {"C": ["A"], "D": []}
+    rep.ob(rule, "tensor-arguments-are-inputs:positive-control", ok_ctl, "", "synthetic control: `B = A.to(dtype=A.dtype); C = B.T; C.add_(1)` is a write into argument A, `D = A.mul(2); D.add_(1)` is not", sample=False)
 
 
 def _is_mutable_container_expr(e: ast.AST) -> bool:
